@@ -44,6 +44,40 @@ def explore(ctx):
                 continue
             ctx.violation('load raises {} for {!r} as {}'.format(c.real_out[1][:120], c.text[:200], c.doc_type),
                           dict(L.describe(c), key='escapes:{}:{}'.format(exc, c.text[:60])))
+    # hand-written recognisers that pin an attribute to a value, on explicitly tagged scalars that
+    # PyYAML's constructors refuse (each with another exception type)
+    yaml_, yatiml_ = L.setup()
+    S = G.S
+    bads = [('s', '', True, '!!int'), ('s', 'maybe', False, '!!bool'), ('s', '_', False, '!!int'),
+            ('s', '', True, '!!bool'), ('s', 'x', False, '!!float'), ('s', '+', False, '!!int'),
+            ('s', '0x_', False, '!!int'), ('s', 'nope', False, '!!timestamp'), ('s', '1', False, '!!int')]
+    for opname in ('rval', 'rvalnot'):
+        for pt, pv in ((('int',), 1), (('bool',), True), (('float',), 1.5), (('str',), 'special')):
+            ps = [dict(name='kind', type=pt), dict(name='x', type=('int',), default=0)]
+            pinned = dict(name='Pinned', bases=[], registered=True, kind='plain', params=ps, all_params=ps,
+                          extra=False, abstract=None, define_init=True, recognize=[(opname, 'kind', pv)])
+            po = [dict(name='kind', type=('str',))]
+            other = dict(name='Other', bases=[], registered=True, kind='plain', params=po, all_params=po,
+                         extra=False, abstract=None, define_init=True)
+            for t in (('cls', 'Pinned'), ('union', [('cls', 'Pinned'), ('cls', 'Other')]),
+                      ('seq', 'list', ('cls', 'Pinned'))):
+                for bad in bads:
+                    doc = ('m', [(S('kind'), bad), (S('x'), S('1'))], None)
+                    if t[0] == 'seq':
+                        doc = ('q', [doc], None)
+                    try:
+                        c = L.build_case(ctx.rng, yaml_, yatiml_, [pinned, other], t, doc, ('pinned', opname))
+                        L.run_case(c, yaml_)
+                    except Exception as e:  # noqa
+                        ctx.count('gen_error:' + type(e).__name__)
+                        continue
+                    cases.append(c)
+                    ctx.case((c.text, repr(t), opname, repr(pv)), nontrivial=c.real_out[0] != 'ok')
+                    ctx.count('pinned_cases')
+                    if c.real_out[0] == 'other':
+                        ctx.violation('load raises {} for {!r} as {} (recogniser: {}({!r}))'.format(
+                            c.real_out[1][:120], c.text, t, opname, pv),
+                            dict(L.describe(c), key='escapes-pinned:{}:{}'.format(c.real_out[1].split(':')[0], c.text[:40])))
     # token soup and mutated text on a few fixed models
     rng = ctx.rng
     yaml, yatiml = L.setup()
